@@ -1,5 +1,48 @@
-(* C05 -- placeholder while the proofs are being written (replaced below). *)
-From KS Require Import lib.Base model.Storage.
+(* C05 -- The durable high watermark never regresses or runs ahead of S3.
+   Over model/Storage.v (fixes applied, see C01.v). [s_store] is the metadata store's
+   next_offset, [s_pubs] every value written to it (newest first), [s3_end] one past
+   the last offset held by S3 segment objects that have an index (0 when none).
+   "Never ahead of S3" is proved in full; "never decreases" is refuted on the current
+   code (known finding hw-callback-reorder) and proved on the complement class. *)
+From KS Require Import lib.Base model.Storage proofs.StorageProofs.
 Open Scope Z_scope.
-Example C05_nonvacuous : run (init (mkCfg 0 0 0 1)) [] <> None.
-Proof. vm_compute. discriminate. Qed.
+
+(* (1) never ahead of S3: in every reachable state, under any concurrency, any S3 /
+       store failure sequence, crashes and restarts *)
+Theorem C05_not_ahead : forall c evs s,
+  run (init c) evs = Some s -> s_store s <= s3_end s.
+Proof. exact not_ahead. Qed.
+Print Assumptions C05_not_ahead.
+
+Theorem C05_published_not_ahead : forall c evs s,
+  run (init c) evs = Some s -> forall v, In v (s_pubs s) -> v <= s3_end s.
+Proof. exact pubs_not_ahead. Qed.
+Print Assumptions C05_published_not_ahead.
+
+(* (2) never decreases. FULL STATEMENT: *)
+Definition C05_monotone_statement : Prop := monotone_statement.
+
+(* refuted: two consecutive flushes commit (last offsets 0 then 1); the second flush's
+   callback reaches the store first, the first one then overwrites 2 with 1. *)
+Theorem C05_monotone_refuted : ~ C05_monotone_statement.
+Proof. exact monotone_refuted. Qed.
+Print Assumptions C05_monotone_refuted.
+
+(* the statement on the complement of the finding's schedule class: runs of one broker
+   incarnation in which at most one onFlush callback is pending at any time
+   (any number of producers, any S3/store faults, empty flushes included).
+   What is missing: overlapping callbacks (the finding) and runs that continue after a
+   crash+restart (covered by C05_not_ahead, not by this monotonicity lemma). *)
+Theorem C05_monotone_partial : forall c s,
+  reach_serial c s -> nondecreasing_newest_first (s_pubs s).
+Proof. exact monotone_partial. Qed.
+Print Assumptions C05_monotone_partial.
+
+Example C05_nonvacuous :
+  (* the refuting run really regresses 2 -> 1 while staying <= s3_end = 2; and a serial
+     run with an empty-flush publish is in reach_serial's domain *)
+  match run (init (mkCfg 0 0 0 1)) reorder_witness with
+  | Some s => s_pubs s = [1; 2] /\ s_store s = 1 /\ s3_end s = 2
+  | None => False
+  end.
+Proof. vm_compute. repeat split. Qed.
